@@ -83,13 +83,15 @@ def r1_signatures(ctx, nf) -> None:
             ctx.broken(f"anchor vanished: hugr.ops.{cname}.{meth}")
         inst = f"hugr.ops.{cname}.{meth}"
         try:
-            got, env = nf.method_nf(c, meth)
+            alts = nf.method_alts(c, meth)
             want, _ = nf.expr_nf(expr, c, extra={"n": sym("n")})
         except Opaque as e:
             ctx.broken(f"{inst}: not normalisable ({e})")
-        g, w = norm(nf, got), norm(nf, want)
-        ctx.check(g == w, "C06.R1", inst, k.module.path, m.lineno,
-                  f"{cname}.{meth} deviates from the specification row ({cite})", m, expected=show(w), found=show(g), detail=show(g)[:200])
+        w = norm(nf, want)
+        bad = [(gd, norm(nf, t)) for gd, t, _ in alts if norm(nf, t) != w]
+        ctx.check(not bad, "C06.R1", inst, k.module.path, m.lineno,
+                  f"{cname}.{meth} deviates from the specification row ({cite})" + (f" on the path [{bad[0][0]}]" if bad and bad[0][0] else ""), m,
+                  expected=show(w), found=show(bad[0][1]) if bad else "", detail=show(w)[:200])
     # UnpackTuple.outer_signature is the flip of MakeTuple's over the same element types (inverse pair)
     c = mod.classes["UnpackTuple"]
     k, m = c.find_method("outer_signature")
@@ -160,9 +162,14 @@ def r2_num_out(ctx, nf) -> None:
         k, m = c.find_method("num_out")
         if m is not None and (f is None or c.mro.index(k) <= c.mro.index(f.owner)):
             try:
-                got, _ = nf.method_nf(c, "num_out")
+                alts = nf.method_alts(c, "num_out")
             except Opaque as e:
                 ctx.broken(f"{inst}: {e}")
+            got = alts[0][1]
+            for gd, t, _ in alts[1:]:
+                if t != got:
+                    got = ("alts", tuple((g2, t2) for g2, t2, _ in alts))
+                    break
             node, file = m, k.module.path
         elif f is not None:
             got = const(f.default.value) if isinstance(f.default, ast.Constant) else ("opaque", u(f.default))
@@ -324,6 +331,9 @@ def run(ctx) -> None:
     r2_num_out(ctx, nf)
     r3_port_kinds(ctx, nf)
     r4_call(ctx, nf)
+    from .. import lints
+    lints.arm(ctx)
+
 
 
 # ---------------------------------------------------------------------------------------
